@@ -214,29 +214,37 @@ def run(ctx):
         # the two sides must be the same expression INCLUDING the sanitising wrapper: the wrapper is not
         # the identity on names that are not identifiers ('my.config.json' -> 'myconfigjson', 'class' ->
         # 'class_'), so a wrapper on one side only makes __all__ list a name the module does not define
-        emit_expr = norm(inner)
-        same = emit_expr == all_expr
-        ctx.ob(
-            "C19.names",
-            gek,
-            name_expr,
-            same,
-            ""
-            if same
-            else "name handed to the emitter is `{}` but __all__ receives `{}`".format(emit_expr, all_expr),
-        )
-        # get_functions_and_classes passes name_tpl and name through unchanged
+        # get_emit_kwarg's expression is over ITS parameters; substitute what get_functions_and_classes passes for
+        # them and compare with what is appended to __all__ (so the comparison does not depend on local names)
+        import copy
+
         gek_calls = [(h, n) for h in holders for n in iter_own(h.node) if isinstance(n, ast.Call) and index.callee(h.mod, n, h) == gek.qual]
         ctx.need(gek_calls, "get_emit_kwarg call vanished")
         for _h, c in gek_calls:
             bound = {}
             for i, a in enumerate(c.args):
                 if i < len(gek.params):
-                    bound[gek.params[i]] = norm(a)
+                    bound[gek.params[i]] = a
             for k in c.keywords:
-                bound[k.arg] = norm(k.value)
-            ok = bound.get("name_tpl") == "name_tpl" and bound.get("name") == "name"
-            ctx.ob("C19.names", gfc, c, ok, "" if ok else "get_emit_kwarg receives name_tpl={} name={}".format(bound.get("name_tpl"), bound.get("name")))
+                bound[k.arg] = k.value
+
+            class Sub(ast.NodeTransformer):
+                def visit_Name(self, node):
+                    return copy.deepcopy(bound[node.id]) if node.id in bound else node
+
+            emit_expr = norm(Sub().visit(copy.deepcopy(inner)))
+            same = emit_expr == all_expr
+            ctx.ob(
+                "C19.names",
+                gek,
+                "emitter name == __all__ entry: " + short(name_expr, 100),
+                same,
+                ""
+                if same
+                else "name handed to the emitter is `{}` (after binding get_emit_kwarg's parameters at the call) but __all__ "
+                "receives `{}`".format(emit_expr, all_expr),
+                line=name_expr.lineno,
+            )
 
     ctx.section(_sec_names)
 
@@ -411,8 +419,15 @@ def run(ctx):
         except Unknown as x:
             ctx.need(False, "cannot fold sanitise_emit_name: {}".format(x))
         always_kw = set()
+        # the local bound to get_emitter(emit_name), whatever it is called
+        evars = {
+            a.targets[0].id
+            for h in holders
+            for a in iter_own(h.node)
+            if isinstance(a, ast.Assign) and isinstance(a.targets[0], ast.Name) and isinstance(a.value, ast.Call) and (index.callee(h.mod, a.value, h) or "").endswith(".get_emitter")
+        }
         for n in [x for h in holders for x in iter_own(h.node)]:
-            if isinstance(n, ast.Call) and isinstance(n.func, ast.Name) and n.func.id == "emitter":
+            if isinstance(n, ast.Call) and isinstance(n.func, ast.Name) and n.func.id in evars:
                 always_kw = {k.arg for k in n.keywords if k.arg}
                 n_pos = len(n.args)
         ctx.need(always_kw, "emitter(...) call vanished from get_functions_and_classes")
